@@ -612,7 +612,7 @@ static const char* reb_string_for_particle_error(int err){
     if (err==15)
         return "Semi-major axis (or orbital period) cannot be zero.";
     if (err==16)
-        return "NaN passed as an argument.";
+        return "NaN or infinite value passed as an argument.";
     return "An unknown error occured during reb_simulation_add_fmt().";
 
 }
@@ -686,7 +686,7 @@ static struct reb_particle reb_particle_from_fmt_errV(struct reb_simulation* r, 
     struct reb_particle primary = {0};
     int primary_given = 0;
     int nan_given = 0; // NaN marks arguments that were not passed; a NaN that was passed explicitly is an error
-#define REB_FMT_GET_DOUBLE(var) do{ var = va_arg(args, double); if (isnan(var)) nan_given = 1; }while(0)
+#define REB_FMT_GET_DOUBLE(var) do{ var = va_arg(args, double); if (!isfinite(var)) nan_given = 1; }while(0) // NaN or +-inf
 
     char *sep = " \t\n,;";
 
